@@ -569,7 +569,8 @@ def binopType (sc : Bool) (op : BinOp) (l r : Operand) : Option Ty :=
       | .ptr _ lb, .ptr _ rb => if typecompatible lb rb && !lb.isFunc then some Ty.int else none
       | _, _ => none
   | .bor | .xor | .band =>
-    (commonreal sc l r).map (·.1)
+    -- `if (!(lp & PROPINT) || !(rp & PROPINT)) error(...)` (fix 6e57e5d)
+    if l.ty.isInt && r.ty.isInt then (commonreal sc l r).map (·.1) else none
   | .add =>
     if l.ty.isArith && r.ty.isArith then (commonreal sc l r).map (·.1)
     else
